@@ -144,3 +144,50 @@ Lemma lfr_nothing_tracked (p : @lfr_params N) e n x : l_tracked p = [] -> snd (l
 Proof. intros H. unfold lfr_step. destruct x as [[yt yp] orc]. rewrite H. reflexivity. Qed.
 
 End LfrProofs.
+
+(** ---------- the bounds cache: the first simulated answer for a key is the one used ever after ---------- *)
+Section Cache.
+Context {N : Num}.
+(** equality used for keys respects itself (true of the reals, and of IEEE [==]: it never holds for NaN) *)
+Hypothesis feqb_cong : forall a b : F N, feqb a b = true -> forall c, feqb a c = feqb b c.
+
+Lemma cache_find_cong (k k' : F N) d (ca : @cache N) : feqb k k' = true -> cache_find k d ca = cache_find k' d ca.
+Proof.
+  intros H. induction ca as [|[[k0 d0] b0] t IH]; [reflexivity|]. simpl.
+  rewrite (feqb_cong k k' H k0), IH. reflexivity.
+Qed.
+
+Lemma cache_find_insert_other (k k' : F N) d d' b' b (ca : @cache N) :
+  cache_find k' d' ca = None -> cache_find k d ca = Some b -> cache_find k d ((k', d', b') :: ca) = Some b.
+Proof.
+  intros Hn Hs. simpl. destruct (feqb k k') eqn:E; simpl; [|exact Hs].
+  destruct (Z.eqb_spec d d') as [->|Hd]; simpl; [|exact Hs].
+  rewrite (cache_find_cong k k' d' ca E) in Hs. congruence.
+Qed.
+
+Lemma lfr_rates_cache_stable (p : @lfr_params N) gated agree oldc newc k d b :
+  forall rs orc r ca ok w a, cache_find k d ca = Some b ->
+  cache_find k d (snd (fst (fst (fst (lfr_rates p gated agree oldc newc rs orc r ca ok w a))))) = Some b.
+Proof.
+  induction rs as [|x rs IH]; intros orc r ca ok w a H; simpl; [exact H|].
+  destruct gated.
+  - destruct orc as [|[[[est den] key] sim] orc']; [apply IH; exact H|].
+    destruct (cache_find key den ca) as [b0|] eqn:Ec, sim as [b1|]; try (apply IH; exact H).
+    apply IH. apply cache_find_insert_other; assumption.
+  - apply IH. exact H.
+Qed.
+
+(** once bounds for a (rounded rate, denominator) key are in the cache, every later update of every
+    later epoch finds exactly those bounds *)
+Theorem lfr_cache_first_answer_wins (p : @lfr_params N) k d b e n x :
+  cache_find k d (l_cache e) = Some b ->
+  cache_find k d (l_cache (fst (lfr_step p e n x))) = Some b /\
+  cache_find k d (l_cache (lfr_reset e)) = Some b.
+Proof.
+  intros H. split; [|exact H].
+  unfold lfr_step. destruct x as [[yt yp] orc].
+  pose proof (lfr_rates_cache_stable p (lfr_gated p n) (Bool.eqb yt yp) (l_conf e) (conf_add (l_conf e) yt yp) k d b
+                (l_tracked p) orc (l_r e) (l_cache e) (l_oracle_ok e) false false H) as Hs.
+  destruct (lfr_rates _ _ _ _ _ _ _ _ _ _ _ _) as [[[[r ca] ok] w] a]. exact Hs.
+Qed.
+End Cache.
